@@ -63,6 +63,8 @@ type OpFact struct {
 
 var fset = token.NewFileSet()
 
+// further tables, one generator per file of this package (registered from init)
+
 func line(p token.Pos) int { return fset.Position(p).Line }
 
 func isCtorName(n string) (string, bool) {
